@@ -1,7 +1,7 @@
 (* C10 -- the overlay shows the overlayfs union of its layers and never modifies lowers.
    Only statements, closed by [exact]; proofs live in Proofs/Overlay*.v. *)
 From Coq Require Import List String NArith Bool.
-From FB Require Import Model.Overlay Proofs.OverlayInv Proofs.OverlayScan Proofs.OverlayRestart Proofs.OverlayReadOnly Proofs.OverlayCoh Proofs.OverlayCohView Proofs.OverlayCohOps Proofs.OverlayCohSteps Proofs.OverlayRefineTeq Proofs.OverlayRefineMerge Proofs.OverlayRefineRun Proofs.OverlayRefine.
+From FB Require Import Model.Overlay Proofs.OverlayInv Proofs.OverlayScan Proofs.OverlayRestart Proofs.OverlayReadOnly Proofs.OverlayCoh Proofs.OverlayCohView Proofs.OverlayCohOps Proofs.OverlayCohSteps Proofs.OverlayRefineTeq Proofs.OverlayRefineMerge Proofs.OverlayRefineRun Proofs.OverlayRefine Proofs.OverlayRefineWh.
 Import ListNotations.
 Local Open Scope string_scope.
 Local Open Scope N_scope.
@@ -111,6 +111,46 @@ Proof. exact op_refines_direct. Qed.
 Theorem C10_op_refines_direct_history : forall u ls nx ops o, Forall layer_ok (u :: ls) -> coh_history ops = true ->
   direct (run_dumps ops (load_all (fresh (Some u) ls nx))) o = true -> op_refines (Some u) ls nx ops o.
 Proof. exact op_refines_direct_history. Qed.
+(* (c), the WHITEOUT cases (Proofs/OverlayRefineWh.v): still no copy-up - the parent is a directory of the upper layer -
+   but the name has candidates.  [direct_wh s o] (boolean, disk state only; [mstack L p] = the candidates for p, top first):
+     - MKDIR / CREATE / MKNOD / SYMLINK where the first candidate is a whiteout, of the upper layer (it is deleted first)
+       or of a lower one: the new entry hides what is below; a new directory is made opaque and the union shows it empty;
+     - UNLINK where the first candidate is a regular file or symlink of any layer - an upper entry that hides lower
+       candidates, or an entry only lower layers hold: a whiteout is written and the union loses the name;
+     - RMDIR where the first candidate is a directory and no directory merged into it has any entry (e.g. an empty upper
+       directory over an empty lower one, or a lower-only empty directory).
+   Same statement as C10_op_refines_direct.  The proof shows in particular that the whiteout IS written whenever lower
+   candidates exist (lower_has_child answers true, and a parent cached as opaque is opaque on disk).
+   Not covered: RMDIR of a merged directory that is empty in the view only because its upper part holds whiteouts. *)
+Theorem C10_op_refines_whiteout : forall s o v, Coherent s -> direct_wh s o = true -> view (load_all s) = Some v ->
+  let spec := fs_apply o (mkFs v (next_ino s)) in
+  res_same (fst (step o s)) (fst spec) /\
+  oteq (view (load_all (run_op o s))) (Some (f_tree (snd spec))) /\
+  lowers (run_op o s) = lowers s.
+Proof. exact op_refines_whiteout. Qed.
+Theorem C10_op_refines_whiteout_history : forall u ls nx ops o, Forall layer_ok (u :: ls) -> coh_history ops = true ->
+  direct_wh (run_dumps ops (load_all (fresh (Some u) ls nx))) o = true -> op_refines (Some u) ls nx ops o.
+Proof. exact op_refines_whiteout_history. Qed.
+Example C10_op_refines_whiteout_nonvacuous :
+  let u := Dir 493 [] [("d", Dir 493 [] [("f", File 5 420 [104] []); ("w", Wh); ("e", Dir 448 [] [])]); ("x", Wh)] in
+  let l := Dir 493 [] [("d", Dir 448 [] [("f", File 2 420 [111] []); ("w", File 3 420 [] []); ("o", File 4 420 [] []); ("e", Dir 448 [] [])]);
+                       ("x", Dir 493 [] [("y", File 6 420 [] [])]); ("z", Dir 493 [] [])] in
+  let s := load_all (fresh (Some u) [l] 1000) in
+  Coherent s /\
+  forallb (direct_wh s) [OUnlink ["d"; "f"]; OUnlink ["d"; "o"]; ORmdir ["d"; "e"]; OMkdir ["x"] 493; OCreate ["d"; "w"] 420;
+     OSymlink ["d"; "w"] [1]; OMkdir ["d"; "w"] 448; OMknod ["x"] 420] = true /\
+  forallb (fun o => negb (direct_wh s o)) [ORmdir ["x"]; ORmdir ["d"]; OUnlink ["z"; "q"]; OUnlink ["d"; "w"]; OMkdir ["d"; "n"] 493;
+     OUnlink ["d"; "e"]; OChmod ["d"; "f"] 384] = true /\
+  ser_opt (view s) = "d1ed(d=d1ed(e=d1c0(),f=f1a4:68,o=f1a4:,),z=d1ed(),)" /\
+  ser_opt (view (load_all (run_op (OMkdir ["x"] 493) s))) = "d1ed(d=d1ed(e=d1c0(),f=f1a4:68,o=f1a4:,),x=d1ed(),z=d1ed(),)" /\
+  ser_opt (view (load_all (run_op (OUnlink ["d"; "f"]) s))) = "d1ed(d=d1ed(e=d1c0(),o=f1a4:,),z=d1ed(),)" /\
+  upper (run_op (OUnlink ["d"; "f"]) s) = Some (Dir 493 [] [("d", Dir 493 [] [("w", Wh); ("e", Dir 448 [] []); ("f", Wh)]); ("x", Wh)]).
+Proof.
+  cbv zeta. split; [|vm_compute; repeat split; reflexivity].
+  apply load_all_coherent. apply fresh_coherent.
+  repeat (first [apply Forall_cons | apply Forall_nil | split | apply wf_dir | apply wf_file | apply wf_lnk | apply wf_wh
+                | apply NoDup_cons | apply NoDup_nil | (cbn; intuition discriminate) | reflexivity ]).
+Qed.
 (* two ingredients, of independent use: the ordinary file system cannot tell [teq] trees apart (same answer, [teq] results) ... *)
 Theorem C10_ordinary_fs_respects_teq : forall o a b n, teq a b ->
   res_same (fst (fs_apply o (mkFs a n))) (fst (fs_apply o (mkFs b n))) /\
@@ -233,6 +273,8 @@ Print Assumptions C10_view_is_union_history.
 Print Assumptions C10_view_is_union_ser.
 Print Assumptions C10_op_refines_direct.
 Print Assumptions C10_op_refines_direct_history.
+Print Assumptions C10_op_refines_whiteout.
+Print Assumptions C10_op_refines_whiteout_history.
 Print Assumptions C10_ordinary_fs_respects_teq.
 Print Assumptions C10_merge_update.
 Print Assumptions C10_merge_file_change.
